@@ -1,5 +1,6 @@
 """C10: auxiliary data is a transparent, authenticated cache and nothing more."""
 from .common import *
+import hashsigs
 
 RULE = ("keygen and sign with aux in {none, all zero of many lengths, previously filled, every single-bit flip (quick: a stride) of a filled buffer, truncated, padded, "
         "00||garbage, in-use marker||garbage, filled for another seed, filled for the same seed with other parameters} x hashes; oracle: key pair / signature / successor "
@@ -131,6 +132,45 @@ def run(ctx):
             r = sref[c.meta["ref"][1]]
             if not a.startswith("ok") or f.get("sig") != r.get("sig") or f.get("cb") != r.get("cb"):
                 ctx.fail("sign with an auxiliary buffer (%s) returned a different signature / successor key than without" % c.cls, [c.line[:600]], a[:120], "sig=%s.." % r.get("sig", "")[:60])
+    # layout against the real hash-sigs tool (SHA-256/32): the aux file it writes for the same seed / parameters / maximum length
+    if hashsigs.available():
+        hs = hashsigs.HashSigs()
+        try:
+            hcases = []
+            for ps, L in (([(3, 5), (4, 5)], 500), ([(3, 5)], 1500), ([(2, 5), (3, 5)], 200), ([(4, 6)], 5000), ([(3, 5), (2, 5)], 1099), ([(3, 5)], 36), ([(3, 5)], 100)):
+                seed = rng.bytes_(32)
+                name, prv, pub, aux = hs.genkey(ps, seed, L)
+                hcases.append(Case(keygen_line("S32", ps, seed, bytes(L)), "keygen/hash-sigs-aux", {"ref": aux}))
+            def split_levels(buf, n):
+                lw = int.from_bytes(buf[:4], "big")
+                out, o = {}, 4
+                for lvl in range(0, 26):
+                    if (lw >> lvl) & 1:
+                        out[lvl] = buf[o:o + (n << lvl)]
+                        o += n << lvl
+                return lw, out, buf[o:]
+            level_sets = []
+            for c, a, b in ctx.both(hcases, None):
+                got = unhx(fields(a).get("aux", "-"))
+                ref = c.meta["ref"]
+                if len(ref) <= 1 or len(got) <= 1:
+                    continue   # nothing cacheable in one of them (marker byte only)
+                lw1, l1, mac1 = split_levels(got, 32)
+                lw2, l2, mac2 = split_levels(ref, 32)
+                level_sets.append({"library": sorted(l1), "hash-sigs": sorted(l2)})
+                # same self-describing layout; the cached nodes of every level both cache must be identical, and identical
+                # level sets must give identical files (incl. the MAC). hash-sigs never caches the leaf level h0 while this
+                # library does when there is room - a different *choice* inside the same format (observation, see DESIGN.md)
+                for lvl in set(l1) & set(l2):
+                    if l1[lvl] != l2[lvl]:
+                        ctx.fail("cached tree level %d differs from the aux file of the cisco hash-sigs tool" % lvl, [c.line[:200]], l1[lvl].hex()[:64], l2[lvl].hex()[:64])
+                if set(l1) == set(l2) and got != ref:
+                    ctx.fail("aux data written by keygen differs from the aux file of the cisco hash-sigs tool", [c.line[:200]], got.hex()[:80], ref.hex()[:80])
+                if len(mac1) != 32 or (lw1 >> 31) != 1:
+                    ctx.fail("aux data does not have the hash-sigs layout (level word flag / MAC length)", [c.line[:200]], "%08x maclen=%d" % (lw1, len(mac1)), "8xxxxxxx maclen=32")
+            ctx.extra["aux_level_sets_vs_hash_sigs"] = level_sets
+        finally:
+            hs.close()
     # known finding: same seed, other parameters
     cases = []
     for H in hashes[:2]:
